@@ -39,6 +39,120 @@ var tokenVocab = []string{"struct", "message", "enum", "union", "const", "readon
 	"int32", "string", "Foo", "a", "1", "0x1", "-1", "1.5", "\"s\"", "{", "}", "[", "]", "(", ")", ";", ",", "=", "->", ":", "|", "&", "<<", ">>", "\n",
 	"// c\n", "/* c */", "inf", "true"}
 
+// weirdInts are integer literals at and beyond every width's edges.
+var weirdInts = []string{"0", "1", "2", "7", "8", "15", "16", "31", "32", "33", "63", "64", "65", "127", "128", "255", "256", "65535", "65536",
+	"-1", "-2", "-8", "-63", "-64", "-65", "-128", "-129", "-32768", "-32769", "2147483647", "2147483648", "-2147483648", "-2147483649",
+	"4294967295", "4294967296", "9223372036854775807", "9223372036854775808", "-9223372036854775808", "-9223372036854775809",
+	"18446744073709551615", "18446744073709551616", "99999999999999999999999", "0x0", "0xff", "0x7fffffffffffffff", "0xffffffffffffffff",
+	"0x10000000000000000", "-0x1", "00", "007", "1e3", "1.0", "-0", "0b1", "1_000"}
+
+var soupBases = []string{"", " : byte", " : uint8", " : uint16", " : int16", " : uint32", " : int32", " : uint64", " : int64", " : string", " : float32", " : Foo"}
+
+func flagExprSoup(r *prng.Rand, depth int, names []string) string {
+	if depth <= 0 || r.Chance(1, 3) {
+		if r.Chance(1, 4) {
+			return append(names, "Zzz")[r.Intn(len(names)+1)]
+		}
+		return weirdInts[r.Intn(len(weirdInts))]
+	}
+	a, b := flagExprSoup(r, depth-1, names), flagExprSoup(r, depth-1, names)
+	e := a + " " + []string{"|", "&", "<<", ">>", "<<", ">>"}[r.Intn(6)] + " " + b
+	if r.Chance(1, 3) {
+		e = "(" + e + ")"
+	}
+	return e
+}
+
+// semanticSoup draws definitions whose syntax is fine and whose meaning is anything:
+// [flags] expressions over every literal and operator (negative and oversized shift counts,
+// undefined and self references), enum values and message indices outside every range,
+// constants that do not fit their type, opcodes of any form, unknown and self-containing
+// types, deep type expressions. ReadFile may accept or reject them; it must not panic.
+func semanticSoup(r *prng.Rand) string {
+	var sb strings.Builder
+	n := r.Range(1, 3)
+	for i := 0; i < n; i++ {
+		name := fmt.Sprintf("D%d", i)
+		switch r.Intn(7) {
+		case 0, 1:
+			if r.Chance(3, 4) {
+				sb.WriteString("[flags]\n")
+			}
+			fmt.Fprintf(&sb, "enum %s%s {\n", name, soupBases[r.Intn(len(soupBases))])
+			var names []string
+			for k, m := 0, r.Range(1, 4); k < m; k++ {
+				on := fmt.Sprintf("O%d", k)
+				if r.Chance(1, 8) && k > 0 {
+					on = "O0"
+				}
+				fmt.Fprintf(&sb, "  %s = %s;\n", on, flagExprSoup(r, r.Intn(4), append(names, on)))
+				names = append(names, on)
+			}
+			sb.WriteString("}\n")
+		case 2:
+			fmt.Fprintf(&sb, "message %s {\n", name)
+			for k, m := 0, r.Range(1, 4); k < m; k++ {
+				fmt.Fprintf(&sb, "  %s -> %s f%d;\n", weirdInts[r.Intn(len(weirdInts))], soupType(r, 3), k)
+			}
+			sb.WriteString("}\n")
+		case 3:
+			types := []string{"bool", "byte", "uint8", "uint16", "int16", "uint32", "int32", "uint64", "int64", "float32", "float64", "string", "guid", "date", "Foo", "int32[]"}
+			lits := append([]string{"true", "false", "inf", "-inf", "nan", "1e999", "-1e999", "1.5", "\"s\"", "\"\"", "\"e215a946-b26f-4567-a276-13136f0a1708\"", "\"e215a946\"", "\"zz15a946-b26f-4567-a276-13136f0a1708\""}, weirdInts...)
+			fmt.Fprintf(&sb, "const %s %s = %s;\n", types[r.Intn(len(types))], name, lits[r.Intn(len(lits))])
+		case 4:
+			ops := []string{"\"abcd\"", "\"abc\"", "\"abcde\"", "\"\"", "\"\u00e9\u00e9\"", "0x1", "0xffffffff", "0x100000000", "-1", "1", "abcd", "0x"}
+			fmt.Fprintf(&sb, "[opcode(%s)]\n", ops[r.Intn(len(ops))])
+			if r.Bool() {
+				fmt.Fprintf(&sb, "struct %s { %s a; }\n", name, soupType(r, 2))
+			} else {
+				fmt.Fprintf(&sb, "message %s { 1 -> %s a; }\n", name, soupType(r, 2))
+			}
+		case 5:
+			fmt.Fprintf(&sb, "%sstruct %s {\n", []string{"", "readonly ", "[deprecated(\"x\")]\n"}[r.Intn(3)], name)
+			for k, m := 0, r.Range(0, 4); k < m; k++ {
+				if r.Chance(1, 4) {
+					sb.WriteString("  [deprecated(\"gone\")]\n")
+				}
+				fmt.Fprintf(&sb, "  %s f%d;\n", soupType(r, 4), k)
+			}
+			sb.WriteString("}\n")
+		default:
+			fmt.Fprintf(&sb, "union %s {\n", name)
+			for k, m := 0, r.Range(0, 3); k < m; k++ {
+				kind := []string{"struct", "message", "enum", "union"}[r.Intn(4)]
+				body := "int32 a;"
+				switch kind {
+				case "message":
+					body = "1 -> int32 a;"
+				case "enum":
+					body = "A = 1;"
+				case "union":
+					body = "1 -> struct In { }"
+				}
+				fmt.Fprintf(&sb, "  %s -> %s %sB%d { %s }\n", weirdInts[r.Intn(len(weirdInts))], kind, name, k, body)
+			}
+			sb.WriteString("}\n")
+		}
+	}
+	return sb.String()
+}
+
+func soupType(r *prng.Rand, depth int) string {
+	base := []string{"int32", "string", "byte", "guid", "date", "bool", "float64", "Foo", "D0", "D1", "D2", "map", "array", "uint8"}
+	if depth <= 0 || r.Chance(1, 2) {
+		return base[r.Intn(len(base))]
+	}
+	switch r.Intn(4) {
+	case 0:
+		return soupType(r, depth-1) + "[]"
+	case 1:
+		return "array[" + soupType(r, depth-1) + "]"
+	case 2:
+		return "map[" + soupType(r, 0) + ", " + soupType(r, depth-1) + "]"
+	}
+	return "map[" + soupType(r, depth-1) + ", " + soupType(r, depth-1) + "]"
+}
+
 func runC10(c *Ctx) *Replay {
 	r := c.R
 	var input []byte
@@ -60,7 +174,10 @@ func runC10(c *Ctx) *Replay {
 		input = []byte(tokenVocab[k/(n*n)] + " " + tokenVocab[(k/n)%n] + " " + tokenVocab[k%n])
 		origin = "tokens3"
 	default:
-		switch r.Intn(8) {
+		switch r.Intn(9) {
+		case 8: // well-formed syntax, arbitrary meaning
+			input = []byte(semanticSoup(r))
+			origin = "semsoup"
 		case 0, 1: // a valid schema in some layout
 			input = []byte(c.layoutSchema())
 			origin = "valid"
